@@ -284,9 +284,27 @@ def regenerate_lean_programs() -> dict:
     p = subprocess.run(['/venv/bin/python', str(tool)], cwd=str(common.VERIF), capture_output=True, text=True,
                        timeout=1800, env=env)
     try:
-        return json.loads(p.stdout.strip().splitlines()[-1])
+        rep = json.loads(p.stdout.strip().splitlines()[-1])
     except Exception:
         return {'rc': p.returncode, 'raw': (p.stdout + p.stderr)[-1500:]}
+    # the larger list of the LAYERED clause (Lemmas/C10ParamWorlds0..3.lean; tools/gen_c10_param_worlds.py): same pipeline, the
+    # certificate is the layer structure read off the relation trees; an input the model lists differently, that is not layered
+    # any more or cannot be generated is a broken obligation like `uncertified`
+    tool2 = common.VERIF / 'tools' / 'gen_c10_param_worlds.py'
+    if tool2.exists():
+        p2 = subprocess.run(['/venv/bin/python', str(tool2)], cwd=str(common.VERIF), capture_output=True, text=True,
+                            timeout=1800, env=env)
+        try:
+            r2 = json.loads(p2.stdout.strip().splitlines()[-1])
+            rep['layered_cases'] = r2.get('cases')
+            rep['layered_objects'] = r2.get('objects')
+            for k in ('model_mismatch', 'not_layered', 'skipped'):
+                if r2.get(k):
+                    rep.setdefault('uncertified', [])
+                    rep['uncertified'] = list(rep['uncertified']) + [f'layered:{k}:{x}' for x in r2[k]]
+        except Exception:
+            rep['raw'] = (p2.stdout + p2.stderr)[-1500:]
+    return rep
 
 
 def run(tier: str, seed: int) -> int:
